@@ -142,6 +142,11 @@ impl Prop for C13 {
                 v.push(LouvainCase { g: GraphCase { kind, n: 0, perm: 0, shape: 1, edges: vec![], wmode: 1, big_n: n, big_seed: law }, seed: n as u64 + law, res: 255, thr: 0, weighted: true, sweep_max_w: None });
             }
         }
+        // a hub with more than 2^11 neighbours (outwards, inwards, undirected): per-node caches and
+        // fast paths keyed on the neighbour count; the leaves of the outward hub do not link back
+        for (kind, variant) in [(1u8, 0u64), (1, 1), (0, 0)] {
+            v.push(LouvainCase { g: GraphCase { kind, n: 0, perm: 0, shape: 2, edges: vec![], wmode: 0, big_n: 2100, big_seed: variant }, seed: 3, res: 255, thr: 0, weighted: false, sweep_max_w: None });
+        }
         // small-scope sweep: every set of 1..=4 (directed: of the 12 ordered pairs) or 1..=5
         // (undirected: of the 6 pairs) edges on 4 nodes x every assignment of integer weights
         // 1..=6 (thorough: 1..=10) x resolution in {0.5, 1, 1.5, 2}. Whether a move raises or lowers
@@ -221,13 +226,20 @@ impl C13 {
         let thr = threshold_of(case.thr);
         let dir = if ng.directed { "directed" } else { "undirected" };
         out.api_calls += 1;
-        graphrs::verif::set_step_budget(Some(STEP_BUDGET));
+        // (a sweep over thousands of nodes costs milliseconds: the hub cases get 2 000 sweeps, a
+        // hundred times what they use)
+        let budget = if n > 1500 { 2_000 } else { STEP_BUDGET };
+        graphrs::verif::set_step_budget(Some(budget));
         let r = guard(|| louvain::louvain_partitions(&graph, weighted, res, thr, Some(case.seed)));
+        let used = budget - graphrs::verif::get_step_budget().unwrap_or(0).min(budget);
         graphrs::verif::set_step_budget(None);
+        if n > 1500 {
+            out.class(format!("hub_of_2099_neighbours_{}_sweeps_used", if used <= 20 { "at_most_20" } else if used <= 200 { "21_to_200" } else { "more_than_200" }));
+        }
         let levels = match r {
             Err(p) => {
                 if p.contains(graphrs::verif::STEP_BUDGET_EXHAUSTED) {
-                    out.fail(format!("louvain_partitions/terminates/step_budget_exhausted/{}", dir), format!("no result after {} loop iterations", STEP_BUDGET));
+                    out.fail(format!("louvain_partitions/terminates/step_budget_exhausted/{}", dir), format!("no result after {} loop iterations", budget));
                 } else {
                     out.fail(format!("louvain_partitions/panic/{}", panic_class(&p)), p);
                 }
